@@ -543,7 +543,16 @@ def check_reference(name, func, rng, n_val=2):
                     blocks = [val.point(partition.get_block(tr[1], k)) for k in range(partition.get_nb_blocks())]
                 res.append(S(tr, val, blocks))
             return res
-        lists = {"points": samples(func.list_of_points), "stat": samples(func.list_of_stationary_points),
+        # "stationary sample" is a property of the recorded data: a sample whose gradient has the empty (pruned)
+        # decomposition -- however it was recorded (stationary_point(), add_point with a zero gradient, a composite)
+        stat_data = [t for t in func.list_of_points if K.T_prune_empty(t[1])]
+        if [id(t) for t in stat_data] != [id(t) for t in func.list_of_stationary_points]:
+            out.append(dict(kind="stationary-list-is-not-the-zero-gradient-samples",
+                            zero_gradient_positions=[i for i, t in enumerate(func.list_of_points) if K.T_prune_empty(t[1])],
+                            n_in_list_of_stationary_points=len(func.list_of_stationary_points),
+                            n_points=len(func.list_of_points)))
+            break
+        lists = {"points": samples(func.list_of_points), "stat": samples(stat_data),
                  "tpoints": samples(func.T.list_of_points) if hasattr(func, "T") else []}
         conds = list(REF[name])
         if name == "BlockSmoothConvexFunction":
